@@ -131,7 +131,9 @@ void h_C05_send_evrrul(void)
 #if !defined REPLAY
 static echs_tzob_t g_utc_zone;
 static unsigned g_utc_calls;
-echs_instant_t echs_instant_utc(echs_instant_t i, echs_tzob_t z) { g_utc_zone = z; g_utc_calls++; return echs_instant_detach_tzob(i); }
+/* the UTC instant differs from the wall-clock one in bit 0, which is what the zone stub's offset depends on */
+echs_instant_t echs_instant_utc(echs_instant_t i, echs_tzob_t z) { g_utc_zone = z; g_utc_calls++; i = echs_instant_detach_tzob(i); i.u ^= 1ULL; return i; }
+echs_evstrm_t echs_evstrm_vmux(const echs_evstrm_t s[], size_t n) { return n ? s[0] : NULL; }
 #endif
 void h_C02_instant_soup(void)
 {
@@ -151,4 +153,26 @@ void h_C02_instant_soup(void)
 		ASSERT(g_utc_calls == 0U && r.u == water.u, "a value without TZID is taken as it is (UTC)");
 	}
 	SENTINEL("instant_soup");
+}
+
+/* ---- __make_evrrul: the proto offset of a rule is the zone offset in force at
+ * DTSTART's UTC instant (refill shifts every occurrence by own offset - proto offset) */
+void h_C16_make_evrrul(void)
+{
+	IN(uint64_t, from);
+	static struct rrulsp_s rr;
+	echs_event_t e = {.from = {.u = from}};
+	ASSUME(from != 0ULL && echs_instant_tzob(e.from) != 0U && !echs_instant_all_day_p(e.from));
+	memset(&rr, 0, sizeof(rr));
+	rr.freq = FREQ_DAILY, rr.count = -1, rr.inter = 1U;
+	struct evrrul_s *this = (struct evrrul_s*)__make_evrrul(e, &rr, 1U);
+	if (this != NULL) {
+		echs_instant_t utc = echs_instant_detach_tzob(e.from);
+		utc.u ^= 1ULL;
+		ASSERT(this->e.from.u == utc.u, "a rule's proto event is DTSTART converted to UTC");
+		ASSERT(this->pof == ((utc.u & 1ULL) ? 3600 : 0), "a rule's proto offset is the zone offset in force at DTSTART's UTC instant (not at its wall-clock reading taken as UTC)");
+		ASSERT(this->zon == echs_instant_tzob(e.from), "the rule keeps DTSTART's zone");
+		SENTINEL("make_evrrul made");
+	}
+	SENTINEL("make_evrrul");
 }
